@@ -291,7 +291,7 @@ func runC06(c *mon.Ctx) {
 	})
 
 	// ---- depth bombs
-	for _, depth := range []int{1, 2, 4, 8, 16, 31, 32, 33, 64, 128, 256, 600, 5000, 30000} {
+	for _, depth := range []int{1, 2, 4, 8, 16, 31, 32, 33, 64, 128, 256, 600, 2999, 5000, 9000, 9989, 30000} {
 		for kind := 0; kind < 4; kind++ {
 			idx++
 			if !c.Mine(idx) {
@@ -331,13 +331,23 @@ func runC06(c *mon.Ctx) {
 			}
 			c.Sig(fmt.Sprintf("depth|cbor|%s|%d", name, depth))
 		}
-		for kind := 0; kind < 3; kind++ {
+		for kind := 0; kind < 7; kind++ {
 			idx++
 			if !c.Mine(idx) {
 				continue
 			}
 			var s string
 			switch kind {
+			case 3, 4, 5, 6:
+				// well-formed documents whose innermost value only the SECOND
+				// pass of a decoder objects to (a number outside float64, a
+				// lone surrogate, an over-long number), below `depth` levels
+				leaf := []string{"1e999", "-4E+1000", `"\ud800"`, "1" + strings.Repeat("0", 400)}[kind-3]
+				open, cl := strings.Repeat("[", depth), strings.Repeat("]", depth)
+				if depth%2 == 1 {
+					open, cl = strings.Repeat(`{"a":`, depth), strings.Repeat("}", depth)
+				}
+				s = `{"x":` + open + leaf + cl + `,"psa-nonce":` + open + leaf + cl + `}`
 			case 0:
 				s = strings.Repeat("[", depth) + strings.Repeat("]", depth)
 			case 1:
